@@ -539,6 +539,7 @@ func c12(c *Ctx) {
 					if _, p, _ := flow.AccessPathC(f); strings.HasSuffix(p, "MatchLabels") {
 						n++
 						c.requireCross(load.FuncName(gl)+": selector labels", f, auto, "compositionUpdatePolicy == Automatic")
+						c.R.Check(flow.Default.Any(f.X, func(v ssa.Value) bool { return hasSuffixCall(v, ".GetCompositionRevisionSelector") }), load.FuncName(gl)+": the revision selector's labels #"+itoa(n), c.pos(f.Pos()), "the labels are those of the XR's compositionRevisionSelector", "the labels that narrow the revisions are not those of the XR's compositionRevisionSelector (the composition selector selects Compositions, not revisions)")
 					}
 				}
 			}
